@@ -20,9 +20,9 @@ from holopy.scattering.scatterer import Spheroid, Cylinder
 from holopy.scattering.imageformation import get_wavevec_from
 
 ID = "C04"
-LEAN_MODULES = ["HoloProps.C04", "HoloProps.C09Gen"]
-MODEL_MODULES = ["HoloModel.ImageFormation", "HoloModel.Cluster", "HoloGen.PyRule"]
-GEN_DEPS = ["PyRule"]
+LEAN_MODULES = ["HoloProps.C04", "HoloProps.C09Gen", "HoloProps.C03Gen"]
+MODEL_MODULES = ["HoloModel.ImageFormation", "HoloModel.Cluster", "HoloGen.PyRule", "HoloGen.PyMie"]
+GEN_DEPS = ["PyRule", "PyMie"]
 NOT_PROVED = [
     "homogeneity of degree 1 of the Fortran T-matrix amplitude in (radius, wavelength) (hypothesis of C04_tmatrix_ratios): searched",
     "each solver is a function of the dimensionless arguments it is handed (hypothesis `raw`): searched over 8 decades",
